@@ -127,6 +127,8 @@ def _no_cross_state(m, rep, cl):
                 rep.fail(cl + ".state-write", f.name, "per-match function mutates state: %s" % show(e.a), where(f, e.node))
     # reads of mapping functions: only constructor-only fields and the memo
     allowed = ctor_fields | {m.f_fwd.name, m.f_inv.name, m.f_anon.name, m.f_dean.name, "_ip_to_str", "make_addr_from_int", "make_addr", "_is_mask", "should_anonymize", "get_addr_pattern"}
+    for c in [m.base] + m.p.subclasses(m.base):
+        allowed |= set(c.methods)
     for f in (m.f_anon, m.f_fwd, m.f_dean, m.f_inv):
         fp = m.A.paths(f)
         seen = set()
@@ -216,11 +218,11 @@ def _undo_threading(ctx, m, rep, cl):
     for path in fa.paths:
         r = path.returned()
         w = where(f_addr, path.result[2] if path.result else f_addr.node)
-        ok = M.is_call(r) and r[1][0] == "attr" and r[1][2] == "sub" and len(r[2]) == 2
-        if not ok:
+        ns = M.norm_sub(r)
+        if ns is None or ns[3] is not None:
             rep.fail(cl + ".sub-plumbing", f_addr.name, "returns %s; expected pattern.sub(callable, line)" % show(r), w)
             continue
-        pat, (repl, line) = r[1][1], r[2]
+        pat, repl, line = ns[0], ns[1], ns[2]
         rep.ob(cl + ".sub-pattern", f_addr.name, pat == ("call", ("attr", ap, "get_addr_pattern"), (), ()), "pattern is %s; expected the anonymizer's own pattern" % show(pat), w)
         rep.ob(cl + ".sub-line", f_addr.name, line == lp, "substitution runs over %s; expected the whole line parameter" % show(line), w)
         if repl[0] != "lambda":
@@ -228,11 +230,9 @@ def _undo_threading(ctx, m, rep, cl):
             continue
         body = repl[3]
         mvar = ("bound", repl[2][0], repl[1])
-        g0 = ("call", ("attr", mvar, "group"), (("const", 0),), ())
-        g0b = ("call", ("attr", mvar, "group"), (), ())
         okb = M.is_call(body) and body[1] == ("global", f_addr.module.name, f_match.name)
         b = bind_args(body, f_match) if okb else None
-        okb = okb and b is not None and b.get(f_match.params[0]) == ap and b.get(f_match.params[1]) in (g0, g0b) and b.get(f_match.params[2]) == up
+        okb = okb and b is not None and b.get(f_match.params[0]) == ap and b.get(f_match.params[1]) is not None and M.group0(b.get(f_match.params[1]), mvar) and b.get(f_match.params[2]) == up
         rep.ob(cl + ".sub-callable", f_addr.name, okb,
                "callback is %s; expected _anonymize_match(anonymizer, match.group(0), undo_ip_anon)" % show(repl), w, key=cl + ".sub-callable|" + f_addr.name)
     # FileAnonymizer.anonymize_io: both IP call sites receive self.undo_ip_anon
@@ -793,27 +793,54 @@ def c17(ctx, rep):
             continue
         li = loops[0]
         it = li.iter
-        # iterable: generator over self.cache.items() filtered on len(bits) == self.length (or direct items with if in body)
+        items = ("call", ("attr", ("attr", SELF, m.CACHE), "items"), (), ())
         filt_ok = src_ok = False
         key_t = val_t = None
+        write_paths = []
+        lenfilter = lambda k: (("compare", ("==",), (("call", ("builtin", "len"), (k,), ()), ("attr", SELF, m.LENGTH))), ("compare", ("==",), (("attr", SELF, m.LENGTH), ("call", ("builtin", "len"), (k,), ()))))
         if it[0] == "comp" and len(it[4]) == 1:
+            # form A: a generator / list of (key, value) filtered on the key length, then a loop over it
             tgt, src, conds = it[4][0]
-            src_ok = src == ("call", ("attr", ("attr", SELF, m.CACHE), "items"), (), ())
+            src_ok = src == items
             k = ("sub", tgt, ("const", 0))
             v = ("sub", tgt, ("const", 1))
-            want = ("compare", ("==",), (("call", ("builtin", "len"), (k,), ()), ("attr", SELF, m.LENGTH)))
-            want2 = ("compare", ("==",), (("attr", SELF, m.LENGTH), ("call", ("builtin", "len"), (k,), ())))
-            filt_ok = len(conds) == 1 and conds[0] in (want, want2)
+            filt_ok = len(conds) == 1 and conds[0] in lenfilter(k)
             elt_ok = it[3] == ("tuple", (k, v))
             key_t = ("loopvar", li.uid, it, (0,))
             val_t = ("loopvar", li.uid, it, (1,))
             rep.ob("C17.dump-pairs", fn.name, elt_ok, "dump iterates pairs %s; expected (key, value) in this order (original first)" % show(it[3]), where(fn, li.node))
-        rep.ob("C17.dump-source", fn.name, src_ok, "dump source is %s; expected the direct view self.%s.items() in insertion order" % (show(it), m.CACHE), where(fn, li.node), key="C17.dump-source|dump_to_file")
-        rep.ob("C17.dump-filter", fn.name, filt_ok, "dump filter: %s; expected exactly len(key) == self.%s (full-length entries, all of them)" % (show(it), m.LENGTH), where(fn, li.node), key="C17.dump-filter|dump_to_file")
-        for bp in li.body_paths:
+            write_paths = [bp for bp in li.body_paths]
+            for bp in write_paths:
+                if bp.conds or bp.result is not None:
+                    filt_ok = False
+        elif it == items:
+            # form B: a loop over items() whose body writes only when the key has full length
+            src_ok = True
+            key_t = ("loopvar", li.uid, it, (0,))
+            val_t = ("loopvar", li.uid, it, (1,))
+            f1, f2 = lenfilter(key_t)
+            filt_ok = True
+            for bp in li.body_paths:
+                if not bp.feasible():
+                    continue
+                tv = bp.truth(f1)
+                if tv is None:
+                    tv = bp.truth(f2)
+                wr = [e for e in bp.effects if e.kind == "call" and M.callee_name(e.a) == "write"]
+                other = [t for t, pol in bp.atoms() if t not in (f1, f2)]
+                if tv is True and not other and bp.result is None:
+                    write_paths.append(bp)
+                elif tv is False and not wr and not other:
+                    pass
+                else:
+                    filt_ok = False
+        rep.ob("C17.dump-source", fn.name, src_ok, "dump source is %s; expected the direct view self.%s.items() in insertion order" % (show(it)[:120], m.CACHE), where(fn, li.node), key="C17.dump-source|dump_to_file")
+        rep.ob("C17.dump-filter", fn.name, filt_ok, "dump filter: %s; expected exactly len(key) == self.%s (full-length entries, all of them)" % (show(it)[:160], m.LENGTH), where(fn, li.node), key="C17.dump-filter|dump_to_file")
+        rep.ob("C17.dump-writes", fn.name, len(write_paths) >= 1, "writing paths in the dump loop: %d" % len(write_paths), where(fn, li.node), nontrivial=False)
+        for bp in write_paths:
             wr = [e for e in bp.effects if e.kind == "call" and M.callee_name(e.a) == "write"]
-            okw = bp.result is None and not bp.conds and len(wr) == 1 and wr[0].a[1] == ("attr", outp, "write")
-            rep.ob("C17.dump-one-line", fn.name, okw, "each entry writes exactly one line unconditionally (writes %d, conds %s)" % (len(wr), bp.describe()), where(fn, li.node))
+            okw = len(wr) == 1 and wr[0].a[1] == ("attr", outp, "write")
+            rep.ob("C17.dump-one-line", fn.name, okw, "each full-length entry writes exactly one line (writes %d, conds %s)" % (len(wr), bp.describe()[:80]), where(fn, li.node))
             if okw and key_t is not None:
                 line = wr[0].a[2][0]
                 r1 = ("call", ("attr", SELF, "_ip_to_str"), (key_t,), ())
@@ -885,14 +912,14 @@ def _dump_requires_ips(ctx, rep, cl):
             continue
         if not path.feasible():
             continue
-        dump_given = ips = None
-        for t, pol in path.atoms():
-            if t[0] == "compare" and t[1] == ("is",) and t[2][0][0] == "attr" and t[2][0][2] == "dump_ip_map" and t[2][1] == ("const", None):
-                dump_given = not pol
-            if t[0] == "attr" and t[2] == "anonymize_ips":
-                ips = pol
-        if dump_given:
-            n += 1
-            if ips is not True:
-                bad += 1
+        args_t = None
+        for e, ls in path.calls():
+            if M.callee_name(e.a) == "_parse_args":
+                args_t = e.a
+        if args_t is None:
+            continue
+        n += 1
+        dump_none = ("compare", ("is",), (("attr", args_t, "dump_ip_map"), ("const", None)))
+        if path.possible({dump_none: False, ("attr", args_t, "anonymize_ips"): False}) is not False:
+            bad += 1
     rep.ob(cl + ".dump-requires-ips", "main", n >= 1 and bad == 0, "paths of main reaching anonymize_files with a dump path: %d, of which without --anonymize-ips established: %d" % (n, bad), where(f_main), key=cl + ".dump-requires-ips|main")
